@@ -49,23 +49,25 @@ type Prog struct {
 	ssa     *ssaState
 	initial []*packages.Package
 
-	neverNilFn      map[*Func]bool
-	helperOf        map[*Func]*helperSite
-	localAlias      map[types.Object]string
-	fieldAlias      map[*types.Var]string
-	fieldByOld      map[string]*types.Var
-	localAliasByPos map[token.Pos]string
-	wrapCache       map[*Func][]ast.Expr
-	wrapEnv         map[*Func]*Env
-	freshFn         map[*Func]int
-	predCacheK      map[predKey]*predSummary
-	baselineKnown   map[string]bool   // unexported function names of the tree the rules were written for
-	sharedHelpers   map[*Func][]*Func // caller -> private helpers with several call sites it calls
-	predCache       map[*Func]*predSummary
-	alias           map[*types.Func]string // renamed unexported functions: object -> baseline canonical name
-	renamed         map[string]string      // baseline name -> current name
-	inWalk          map[*Func]bool
-	holdsState      *State // state of the Holds query in progress (for pruning join alternatives)
+	neverNilFn        map[*Func]bool
+	helperOf          map[*Func]*helperSite
+	localAlias        map[types.Object]string
+	fieldAlias        map[*types.Var]string
+	fieldByOld        map[string]*types.Var
+	delegated         []string
+	standsForExported map[*Func]bool
+	localAliasByPos   map[token.Pos]string
+	wrapCache         map[*Func][]ast.Expr
+	wrapEnv           map[*Func]*Env
+	freshFn           map[*Func]int
+	predCacheK        map[predKey]*predSummary
+	baselineKnown     map[string]bool   // unexported function names of the tree the rules were written for
+	sharedHelpers     map[*Func][]*Func // caller -> private helpers with several call sites it calls
+	predCache         map[*Func]*predSummary
+	alias             map[*types.Func]string // renamed unexported functions: object -> baseline canonical name
+	renamed           map[string]string      // baseline name -> current name
+	inWalk            map[*Func]bool
+	holdsState        *State // state of the Holds query in progress (for pruning join alternatives)
 }
 
 func loadProg(dir string) (*Prog, error) {
@@ -222,6 +224,7 @@ func loadProg(dir string) (*Prog, error) {
 	p.resolveRenames()
 	p.resolveLocalRenames()
 	p.resolveFieldRenames()
+	p.resolveDelegations()
 	return p, nil
 }
 
